@@ -397,7 +397,9 @@ class _PatchingASTWalker:
         start, end = self.source.consume_string(
             end=self._find_next_statement_start(),
         )
-        self.source.offset = offset
+        # continue at the literal itself: its quote tokens are searched without the
+        # in-comment check and must not be found in a comment that precedes it
+        self.source.offset = start
 
         children = []
         children.append(start_quote_char())
